@@ -5,10 +5,10 @@
 S=/verif/seeded/$1; shift
 WT=/tmp/seedwt_$$
 git -C /repo worktree add -q --detach $WT HEAD || exit 3
-echo "== demo on unchanged sources"; /tmp/srctest.sh $WT --python $S/demo.py >/tmp/seed_demo0.log 2>&1; echo "exit $?"
+echo "== demo on unchanged sources"; /verif/tools/srctest.sh $WT --python $S/demo.py >/tmp/seed_demo0.log 2>&1; echo "exit $?"
 git -C $WT apply $S/patch.diff || { echo "patch does not apply"; git -C /repo worktree remove --force $WT; exit 3; }
-echo "== demo on changed sources"; /tmp/srctest.sh $WT --python $S/demo.py >/tmp/seed_demo1.log 2>&1; echo "exit $?"; tail -2 /tmp/seed_demo1.log | cut -c1-200
-echo "== test-suite on changed sources"; /tmp/srctest.sh $WT | tail -1
+echo "== demo on changed sources"; /verif/tools/srctest.sh $WT --python $S/demo.py >/tmp/seed_demo1.log 2>&1; echo "exit $?"; tail -2 /tmp/seed_demo1.log | cut -c1-200
+echo "== test-suite on changed sources"; /verif/tools/srctest.sh $WT | tail -1
 git -C /repo worktree remove --force $WT
 git -C /repo apply $S/patch.diff || exit 3
 for c in "$@"; do
